@@ -194,6 +194,49 @@ func CheckC18(run *evid.Run) {
 					run.Violate("C18/same-key-verify", det(), wit(), "entry decoded with the same key does not verify: %v", err)
 				}
 			}
+			// an entry is stored AGAIN (re-hashed, re-pinned, copied to another store): the writer's in-memory object through
+			// the keyed codec and through a key-less one, and the object a same-key reader decoded through the keyed codec.
+			// Whatever block that produces must hide the links like the original
+			{
+				type restore struct {
+					what string
+					obj  iface.IPFSLogEntry
+					io   iface.IO
+				}
+				rs := []restore{{"the writer's object through the keyed codec", e, same}, {"the writer's object through a key-less codec", e, none}}
+				if dd, err := same.DecodeRawEntry(node, e.Hash, provider); err == nil {
+					rs = append(rs, restore{"the object a same-key reader decoded, through the keyed codec", dd, same})
+				}
+				for _, r := range rs {
+					sc := store.New()
+					nc, err := entry.ToMultihashWithIO(x.W.Ctx, r.obj, sc.API(), nil, r.io)
+					if err != nil {
+						continue
+					}
+					nraw, ok := sc.Raw(nc)
+					if !ok {
+						continue
+					}
+					run.Count("entries_stored_again", 1)
+					leaked := ""
+					for _, l := range links {
+						for name, pat := range forms(l) {
+							if bytes.Contains(nraw, pat) {
+								leaked = name
+							}
+						}
+					}
+					if nn, err := store.Decode(nc, nraw); err == nil && len(nn.Links()) > 0 {
+						leaked = "traversable IPLD links"
+					}
+					if leaked != "" {
+						w := wit()
+						w["stored_again"] = r.what
+						w["new_block_identifier"] = nc.String()
+						run.Violate("C18/link-in-clear", det("form", leaked, "stored_again", r.what), w, "storing %s again wrote a block (%s) that shows the entry's links (%s)", r.what, hx.Short(nc.String()), leaked)
+					}
+				}
+			}
 			// every key that differs from the writer's in ONE bit is a different key (one entry per history, all 256 bits)
 			if !neighboursDone {
 				neighboursDone = true
